@@ -376,6 +376,48 @@ theorem inv_tick {s : St} (h : Inv s) : Inv (step s .tick).1 := by
         subst hp'
         exact ⟨rfl, rfl⟩
 
+theorem inv_savepoint {s : St} (h : Inv s) : Inv (step s .savepoint).1 := by
+  simp only [step]
+  split
+  · exact h
+  · rename_i hst
+    have hrun : s.status = .running := by
+      cases hs : s.status <;> simp_all
+    split
+    · rename_i p hp
+      split
+      · exact h
+      · refine ⟨⟨h.regLiveO, h.regLiveS, h.sortedO, h.sortedS, h.tickRun, h.asmShape, ?_, ?_, h.curLe, ?_, h.procAsm,
+          h.recSrc⟩, h.runHealthy⟩
+        · intro hs; rw [hrun] at hs; cases hs
+        · intro q hq
+          simp only [Option.some.injEq] at hq
+          subst hq
+          exact h.pendId p hp
+        · intro q hq
+          simp only [Option.some.injEq] at hq
+          subst hq
+          exact h.pendAsm p hp
+    · refine ⟨⟨h.regLiveO, h.regLiveS, h.sortedO, h.sortedS, h.tickRun, h.asmShape, ?_, ?_, ?_, ?_, h.procAsm, h.recSrc⟩,
+        h.runHealthy⟩
+      · intro hs; rw [hrun] at hs; cases hs
+      · intro p hp'
+        simp only [Option.some.injEq] at hp'
+        subst hp'
+        refine ⟨rfl, ?_⟩
+        intro c hc
+        have := h.curLe c hc
+        show c < s.store.counter + 1
+        omega
+      · intro c hc
+        have := h.curLe c hc
+        show c ≤ s.store.counter + 1
+        omega
+      · intro p hp'
+        simp only [Option.some.injEq] at hp'
+        subst hp'
+        exact ⟨rfl, rfl⟩
+
 /-- frame: only the store and process `i` change; the process keeps its deployment -/
 theorem inv_setProc {s : St} (i : Nat) (st' : Store) (p' : OpProc)
     (hi : Inv { s with store := st' }) (hd : p'.deployed = (s.procs i).deployed) (hs : p'.srcs = (s.procs i).srcs)
@@ -448,6 +490,8 @@ theorem step_inv {s : St} (h : Inv s) (a : Act) (hser : a.serial = true) : Inv (
   | tickA => cases hser
   | tickB => cases hser
   | tickC => cases hser
+  | spA => cases hser
+  | savepoint => exact inv_savepoint h
   | regO i => exact evaluate_inv (inv'_regO h.toInv' i)
   | regS i => exact evaluate_inv (inv'_regS h.toInv' i)
   | deregO i => exact evaluate_inv (inv'_deregO h.toInv' i)
@@ -565,9 +609,18 @@ theorem flush_dep (s : St) (i : Nat) : (flushBatch s i).2.dep? = none := by
 
 theorem tickB_dep (s : St) : (step s .tickB).2.dep? = none := by
   simp only [step]
-  split
-  · split <;> rfl
-  · rfl
+  repeat' split
+  all_goals rfl
+
+theorem savepoint_dep (s : St) : (step s .savepoint).2.dep? = none := by
+  simp only [step]
+  repeat' split
+  all_goals rfl
+
+theorem spA_dep (s : St) : (step s .spA).2.dep? = none := by
+  simp only [step]
+  repeat' split
+  all_goals rfl
 
 theorem tickC_dep (s : St) : (step s .tickC).2.dep? = none := by
   simp only [step]
@@ -584,6 +637,8 @@ theorem step_dep_src {s : St} (h : Inv s) (a : Act) (dep : Dep) (hd : (step s a)
   | adv n => cases hd
   | tickA => simp only [step] at hd; split at hd <;> (try split at hd) <;> cases hd
   | publish n => simp only [step] at hd; split at hd <;> cases hd
+  | savepoint => exact absurd hd (by rw [savepoint_dep]; simp)
+  | spA => exact absurd hd (by rw [spA_dep]; simp)
   | tickB => exact absurd hd (by rw [tickB_dep]; simp)
   | tickC => exact absurd hd (by rw [tickC_dep]; simp)
   | deployOk => simp only [step] at hd; split at hd <;> cases hd
@@ -743,9 +798,16 @@ theorem step_current (s : St) (a : Act) :
   | tickA => simp only [step]; split <;> (try split) <;> exact Or.inl rfl
   | tickB =>
     simp only [step]
-    split
-    · split <;> exact Or.inl rfl
-    · exact Or.inl rfl
+    repeat' split
+    all_goals exact Or.inl rfl
+  | savepoint =>
+    simp only [step]
+    repeat' split
+    all_goals exact Or.inl rfl
+  | spA =>
+    simp only [step]
+    repeat' split
+    all_goals exact Or.inl rfl
   | tickC => simp only [step]; split <;> exact Or.inl rfl
   | regO i => exact Or.inl (evaluate_current _).1
   | regS i => exact Or.inl (evaluate_current _).1
@@ -1124,9 +1186,16 @@ theorem step_startCk (s : St) (a : Act) (h : (step s a).2.dep? = none) : (step s
   | tickA => simp only [step]; split <;> (try split) <;> rfl
   | tickB =>
     simp only [step]
-    split
-    · split <;> rfl
-    · rfl
+    repeat' split
+    all_goals rfl
+  | savepoint =>
+    simp only [step]
+    repeat' split
+    all_goals rfl
+  | spA =>
+    simp only [step]
+    repeat' split
+    all_goals rfl
   | tickC => simp only [step]; split <;> rfl
 
 theorem run_startCk (s : St) (acts : List Act) (h : ∀ o ∈ (run s acts).2, o.dep? = none) :
@@ -1137,5 +1206,188 @@ theorem run_startCk (s : St) (acts : List Act) (h : ∀ o ∈ (run s acts).2, o.
     simp only [run] at h ⊢
     have h1 : (step s a).2.dep? = none := h _ (List.mem_cons_self ..)
     rw [ih (step s a).1 (fun o ho => h o (List.mem_cons_of_mem _ ho)), step_startCk s a h1]
+
+/-! ### a snapshot being written can always be published (`canPublish` is never the reason for `nothing`) -/
+
+/-- ids of snapshots being written have been reached by the counter and lie below a pending snapshot's id -/
+def WriteOk (s : St) : Prop :=
+  ∀ n ∈ s.store.writing, n ≤ s.store.counter ∧ ∀ p, s.store.pending = some p → n < p.id
+
+theorem evaluate_store (s : St) :
+    (evaluate s).1.store.writing = s.store.writing ∧ (evaluate s).1.store.counter = s.store.counter ∧
+    ((evaluate s).1.store.pending = s.store.pending ∨ (evaluate s).1.store.pending = none) := by
+  unfold evaluate evalStatus
+  have hs : ∀ t : St, (spawn t).1.store.writing = t.store.writing ∧ (spawn t).1.store.counter = t.store.counter ∧
+      ((spawn t).1.store.pending = t.store.pending ∨ (spawn t).1.store.pending = none) := by
+    intro t; unfold spawn; split
+    · exact ⟨rfl, rfl, Or.inl rfl⟩
+    · exact ⟨rfl, rfl, Or.inr rfl⟩
+  split
+  · split <;> exact ⟨rfl, rfl, Or.inl rfl⟩
+  · exact ⟨rfl, rfl, Or.inl rfl⟩
+  · exact hs _
+  · exact hs _
+
+theorem writeOk_of_store {s t : St} (h : WriteOk s) (hw : t.store.writing = s.store.writing)
+    (hc : t.store.counter = s.store.counter) (hp : t.store.pending = s.store.pending ∨ t.store.pending = none) :
+    WriteOk t := by
+  intro n hn
+  rw [hw] at hn
+  obtain ⟨a, b⟩ := h n hn
+  refine ⟨by rw [hc]; exact a, ?_⟩
+  intro p hpp
+  rcases hp with e | e
+  · exact b p (by rw [← e]; exact hpp)
+  · rw [e] at hpp; cases hpp
+
+theorem writeOk_ackStep {s : St} (hi : Inv s) (h : WriteOk s) {st' : Store} (ha : AckStep s.store st') :
+    WriteOk { s with store := st' } := by
+  rcases ha with e | ⟨p, p', hp, h1, _, _, hc, _, hcase⟩
+  · subst e; exact h
+  · have hpid := (hi.pendId p hp).1
+    intro n hn
+    rcases hcase with ⟨hq, hw⟩ | ⟨hq, hw⟩
+    · have hn' : n ∈ s.store.writing := by rw [← hw]; exact hn
+      obtain ⟨a, b⟩ := h n hn'
+      refine ⟨by show n ≤ st'.counter; rw [hc]; exact a, ?_⟩
+      intro q hqq
+      have : q = p' := by
+        have : st'.pending = some q := hqq
+        rw [hq] at this; exact (Option.some.inj this).symm
+      rw [this, h1]; exact b p hp
+    · refine ⟨?_, ?_⟩
+      · show n ≤ st'.counter
+        rw [hc]
+        have hn' : n ∈ s.store.writing ++ [p.id] := by rw [← hw]; exact hn
+        rcases List.mem_append.mp hn' with hm | hm
+        · exact (h n hm).1
+        · have : n = p.id := by simpa using hm
+          omega
+      · intro q hqq
+        have : st'.pending = some q := hqq
+        rw [hq] at this; cases this
+
+theorem step_writeOk {s : St} (hi : Inv s) (h : WriteOk s) (a : Act) (hser : a.serial = true) :
+    WriteOk (step s a).1 := by
+  cases a with
+  | tickA => cases hser
+  | tickB => cases hser
+  | tickC => cases hser
+  | spA => cases hser
+  | savepoint =>
+    simp only [step]
+    split
+    · exact h
+    · split
+      · rename_i p hp
+        split
+        · exact h
+        · intro n hn
+          have hn' : n ∈ s.store.writing := hn
+          obtain ⟨a, b⟩ := h n hn'
+          refine ⟨a, ?_⟩
+          intro q hq
+          simp only [Option.some.injEq] at hq
+          subst hq
+          exact b p hp
+      · intro n hn
+        have hn' : n ∈ s.store.writing := hn
+        obtain ⟨a, _⟩ := h n hn'
+        refine ⟨by show n ≤ s.store.counter + 1; omega, ?_⟩
+        intro p hp
+        simp only [Option.some.injEq] at hp
+        subst hp
+        show n < s.store.counter + 1
+        omega
+  | regO i => obtain ⟨a, b, c⟩ := evaluate_store { s with live := fun j => if j = i then some s.now else s.live j, ops := ins i s.ops }; exact writeOk_of_store h a b c
+  | regS i => obtain ⟨a, b, c⟩ := evaluate_store { s with live := fun j => if j = i then some s.now else s.live j, srs := ins i s.srs }; exact writeOk_of_store h a b c
+  | deregO i => obtain ⟨a, b, c⟩ := evaluate_store { s with ops := s.ops.filter (· ≠ i) }; exact writeOk_of_store h a b c
+  | deregS i => obtain ⟨a, b, c⟩ := evaluate_store { s with srs := s.srs.filter (· ≠ i) }; exact writeOk_of_store h a b c
+  | adv n => exact h
+  | deployOk =>
+    simp only [step]
+    split
+    · exact h
+    · obtain ⟨a, b, c⟩ := evaluate_store { s with procs := deployProcs s none, status := .running, ticker := true }
+      exact writeOk_of_store h a b c
+  | deployFail k =>
+    simp only [step]
+    split
+    · exact h
+    · obtain ⟨a, b, c⟩ := evaluate_store
+        { s with procs := deployProcs s (s.asmOps[k % (s.asmOps.length + s.asmSrs.length)]?), status := .paused, ticker := false }
+      exact writeOk_of_store h a b c
+  | tick =>
+    simp only [step]
+    split
+    · exact h
+    · split
+      · exact h
+      · intro n hn
+        have hn' : n ∈ s.store.writing := hn
+        obtain ⟨a, _⟩ := h n hn'
+        refine ⟨by show n ≤ s.store.counter + 1; omega, ?_⟩
+        intro p hp
+        simp only [Option.some.injEq] at hp
+        subst hp
+        show n < s.store.counter + 1
+        omega
+  | ackS i id => exact writeOk_ackStep hi h (ackS_ackStep _ _ _)
+  | ackO i id => exact writeOk_ackStep hi h (ackO_ackStep _ _ _)
+  | bar i sr id =>
+    simp only [step]; unfold barrier
+    split
+    · exact h
+    · split
+      · exact h
+      · unfold register
+        split
+        · exact h
+        · split
+          · split
+            · rename_i st' pub heq
+              have hst : st' = (ackO s.store i ((s.procs i).inflight.getD (id, (s.procs i).srcs)).1).1 := by rw [heq]
+              have := writeOk_ackStep hi h (ackO_ackStep s.store i ((s.procs i).inflight.getD (id, (s.procs i).srcs)).1)
+              rw [← hst] at this
+              exact this
+            · exact h
+          · exact h
+  | ev i sr tag =>
+    simp only [step]; unfold event
+    split
+    · exact h
+    · split
+      · exact h
+      · split <;> exact h
+  | flush i => simp only [step]; unfold flushBatch; split <;> exact h
+  | publish n =>
+    simp only [step]
+    split
+    · intro m hm
+      have hm' : m ∈ s.store.writing := List.mem_of_mem_erase hm
+      exact h m hm'
+    · exact h
+
+theorem run_inv_writeOk {s : St} (hi : Inv s) (h : WriteOk s) (as : List Act) (hser : ∀ a ∈ as, a.serial = true) :
+    Inv (run s as).1 ∧ WriteOk (run s as).1 := by
+  induction as generalizing s with
+  | nil => exact ⟨hi, h⟩
+  | cons a as ih =>
+    simp only [run]
+    have ha := hser a (List.mem_cons_self ..)
+    exact ih (step_inv hi a ha) (step_writeOk hi h a ha) (fun b hb => hser b (List.mem_cons_of_mem _ hb))
+
+theorem reachable_writeOk {s : St} (h : Reachable s) : WriteOk s := by
+  obtain ⟨w, d, c0, bmax, acts, hser, rfl⟩ := h
+  exact (run_inv_writeOk (init_inv w d c0 bmax) (by intro n hn; simp [init] at hn) acts hser).2
+
+theorem canPublish_of_writeOk {s : St} (h : WriteOk s) (n : Nat) (hn : n ∈ s.store.writing) :
+    canPublish s.store n = true := by
+  obtain ⟨a, b⟩ := h n hn
+  unfold canPublish
+  have hc : s.store.writing.contains n = true := by simpa using hn
+  cases hp : s.store.pending with
+  | none => simp [hn, a]
+  | some p => simp [hn, a, b p hp]
 
 end Rxn.JobFsm
